@@ -68,6 +68,15 @@ class NxModel:
         st.define(z3.ForAll([e], z3.Implies(z3.And(z3.Select(E, e), e_src(e) == s, e_tgt(e) == t), b)))
         return b
 
+    def adj_truthy(self, eng, adj, st):
+        """bool(g[s]): the successor adjacency of s is non-empty exactly when some edge leaves s"""
+        g, s = adj.x
+        b = fresh("has_succ", z3.BoolSort())
+        e = fresh("e", Val)
+        E = self.edges(eng, st, g)
+        st.define(b == z3.Exists([e], z3.And(z3.Select(E, e), well_formed_id(e), e_src(e) == s)))
+        return b
+
     def adj_getitem(self, eng, adj, idx, st):
         g, s = adj.x
         return SV("nx_keydict", x=(g, s, to_val(idx)))
@@ -117,6 +126,22 @@ class NxModel:
             st.assume(z3.Select(E, e))
             eng.card_axioms_store(st, E, e, False)
             st.heap["$g_edges"] = z3.Store(eng.field_array(st, "$g_edges"), g, z3.Store(E, e, False))
+            return sv_none()
+        if name == "remove_node":
+            # removes the node and every edge incident to it (either end); NetworkXError if it is not a node
+            nd = to_val(args[0])
+            s2 = st.fork()
+            s2.assume(z3.Not(z3.Select(N, nd)))
+            from .symex import Exc
+            eng.exc_paths.append((s2, Exc("NetworkXError")))
+            st.assume(z3.Select(N, nd))
+            E2 = fresh("E_after_remove_node", SetSort)
+            e = fresh("e", Val)
+            st.define(z3.ForAll([e], z3.Select(E2, e) == z3.And(z3.Select(E, e), e_src(e) != nd, e_tgt(e) != nd)))
+            st.facts.append(Card(E2) >= 0)
+            st.facts.append(Card(E2) <= Card(E))
+            st.heap["$g_edges"] = z3.Store(eng.field_array(st, "$g_edges"), g, E2)
+            st.heap["$g_nodes"] = z3.Store(eng.field_array(st, "$g_nodes"), g, z3.Store(N, nd, False))
             return sv_none()
         if name == "clear":
             st.heap["$g_edges"] = z3.Store(eng.field_array(st, "$g_edges"), g, EmptySet)
